@@ -675,6 +675,19 @@ class Facts:
             self._renamed = inliner.renamed_helpers(self, norm)
         return root not in self._renamed
 
+    def seen_inlined(self, npath):
+        """a new helper that was spliced into at least one caller: rules judge it there, with the arguments the caller
+        passes, and never on its own"""
+        if not self.is_new_helper(npath):
+            return False
+        if getattr(self, '_inlined_set', None) is None:
+            self.callers()                      # loads (and normalises) every body
+            self._inlined_set = {norm(p) for v in self.inlined.values() for p in v}
+        root = npath
+        while '::{closure#' in root:
+            root = root[:root.rindex('::{closure#')]
+        return root in self._inlined_set
+
     def bodies_raw(self, path):
         if path not in self._bodies:
             ds = [json.loads(l) for l in self._raw[path]]
